@@ -193,14 +193,25 @@ Proof.
   destruct (q_peek (fq w)); [|assumption]. apply IH, try_route_next_PI. assumption.
 Qed.
 
+Lemma route_all_PI c fuel w : PI w -> PI (route_all c fuel w).
+Proof.
+  revert w. induction fuel as [|f IH]; intros w H; simpl; [assumption|].
+  destruct (q_peek (fq w)); [|assumption].
+  destruct (qlen (fq (try_route_next c None w)) <? qlen (fq w)); [apply IH|]; apply try_route_next_PI; assumption.
+Qed.
+
 Lemma resize_pool_PI c n w : PI w -> PI (resize_pool c n w).
 Proof.
   intros H. unfold resize_pool. destruct (n =? 0); [assumption|].
   destruct (pool_size w <? N.min 1000000 n).
-  - apply route_n_PI.
-    assert (PI (grow_pool c (N.to_nat (N.min 1000000 n - pool_size w)) (pool_size w) w)) as G
-      by (apply grow_pool_PI; assumption).
-    exact G.
+  - assert (PI (set_pool_size (N.min 1000000 n)
+                  (grow_pool c (N.to_nat (N.min 1000000 n - pool_size w)) (pool_size w) w))) as G.
+    { assert (PI (grow_pool c (N.to_nat (N.min 1000000 n - pool_size w)) (pool_size w) w)) as G0
+        by (apply grow_pool_PI; assumption).
+      exact G0. }
+    cbv zeta.
+    match goal with |- context [if ?b then _ else _] => destruct b end;
+      [apply route_n_PI|apply route_all_PI]; exact G.
   - destruct (N.min 1000000 n <? pool_size w); [|assumption].
     assert (PI (shrink_pool c (N.to_nat (pool_size w - N.min 1000000 n)) (N.min 1000000 n) w)) as G
       by (apply shrink_pool_PI; assumption).
